@@ -12,6 +12,15 @@ import types
 EPOCH = _dt.datetime(2030, 1, 1, 0, 0, 0)
 
 
+def prod_list(cfg):
+    """the observer's producers, in order: [dict(same_stage, prod_rep)]"""
+    if cfg.get('prods') is not None:
+        return [dict(same_stage=bool(p['same_stage']), prod_rep=bool(p['prod_rep'])) for p in cfg['prods']]
+    if not cfg['has_prod']:
+        return []
+    return [dict(same_stage=bool(cfg['same_stage']), prod_rep=bool(cfg['prod_rep']))]
+
+
 class StopDriving(BaseException):
     """raised out of the fake sleep when the script is exhausted (the engine is still running)"""
 
@@ -118,14 +127,31 @@ class Driver(object):
                 self.errors.append('suicide:%s' % type(e).__name__)
 
     def _apply(self, ev):
-        if ev == 'Out':
-            self.lo = self.now_ms
+        if ev.startswith('Out'):
+            # 'Out' = producer 0 writes output now, 'Out<k>' = producer k does (a write of a producer the
+            # configuration does not have is a no-op; so is, in stageIn mode, the write of a producer that has finished)
+            i = int(ev[3:] or 0)
+            if i < len(self.los) and (self.alive is None or self.alive[i]):
+                self.los[i] = self.now_ms
+                self.eff[self.k].append(ev)
+        elif ev.startswith('Fin'):
+            # stageIn mode: producer k finishes - its notifyFinished emits its last state and completes; the REAL
+            # subscription made by ComponentState.stageIn decides whether that finishes "all producers"
+            i = int(ev[3:])
+            if self.alive is not None and i < len(self.alive) and self.alive[i]:
+                self.alive[i] = False
+                self.subjects[i].on_next(({'isAlive': False}, self.prod_states[i]))
+                self.subjects[i].on_completed()
         elif ev == 'Notify':
+            if self.alive is None:
+                self.eff[self.k].append(ev)
             self.eng.notify_all_producers_finished()
         elif ev == 'Kill':
+            self.eff[self.k].append(ev)
             self.kills.append(self.k)
             self.eng.kill()
         elif ev == 'Suicide':
+            self.eff[self.k].append(ev)
             self.fire_suicide()
         else:
             raise ValueError(ev)
@@ -158,8 +184,51 @@ class Driver(object):
             self._apply(ev)
         self.pending_ntf = bool(st['o'].get('ntf'))
 
+    def _stage_in(self, cfg, plist):
+        """stageIn mode: the notification is not scripted; the REAL ComponentState.stageIn (workflow.py) subscribes the
+        real engine to the notifyFinished observables of the producers that are alive (cfg['alive0']) and calls
+        notify_all_producers_finished itself.  Its thread-pool scheduler is replaced by an immediate one."""
+        import experiment.runtime.workflow as W
+        import reactivex.subject
+        import reactivex.scheduler
+        drv = self
+        self.alive = [bool(x) for x in cfg['alive0']]
+        assert len(self.alive) == len(plist)
+        self.subjects = [reactivex.subject.Subject() for _ in plist]
+        self.prod_states = []
+        for i in range(len(plist)):
+            ps = _Obj()
+            ps.notifyFinished = self.subjects[i]
+            ps.isAlive = (lambda i=i: drv.alive[i])
+            ps.specification = types.SimpleNamespace(reference='stage0.prod%d' % i)
+            self.prod_states.append(ps)
+        real_notify = self.eng.notify_all_producers_finished
+
+        def notify():
+            drv.eff[min(drv.k, len(drv.eff) - 1)].append('Notify')
+            return real_notify()
+        self.eng.notify_all_producers_finished = notify
+        cs = _Obj()
+        cs._finishedCalled = False
+        cs.engine = self.eng
+        cs.producers = self.prod_states
+        cs.log = logging.getLogger('verif.c13.cs')
+        cs.specification = types.SimpleNamespace(reference='stage0.obs')
+        cs.repeatingObservable = None
+        cs.repeatingDisposable = None
+        cs._notifyProducersFinished = types.MethodType(W.ComponentState._notifyProducersFinished, cs)
+        saved = W.ComponentState.componentScheduler
+        W.ComponentState.componentScheduler = reactivex.scheduler.ImmediateScheduler()
+        try:
+            W.ComponentState.stageIn(cs, stageData=False)
+        finally:
+            W.ComponentState.componentScheduler = saved
+        self.cs = cs
+
     def run_case(self, cfg, steps):
-        """cfg: dict(retries, has_prod, same_stage, prod_rep, check_out, has_delay, interval, t0)
+        """cfg: dict(retries, has_prod, same_stage, prod_rep, check_out, has_delay, interval, t0[, prods])
+        prods (optional): list of dict(same_stage, prod_rep), the observer's producers in order; without it there is
+        one producer described by same_stage/prod_rep (none if has_prod is false)
         steps: list of dict(dt, evs, o) ; steps[0].dt is ignored (0), steps[0].evs happen before run().
         returns dict(obs=[...one per poll...], finished=bool, execs=[(launch, pf_at_launch, rc|None)], errors=[...])"""
         E, D = self.E, self.D
@@ -168,7 +237,8 @@ class Driver(object):
             raise RuntimeError('verif C13 driver: %d live threads - the engine under test is leaking threads'
                                % threading.active_count())
         self.now_ms = cfg['t0']
-        self.lo = None
+        plist = prod_list(cfg)
+        self.los = [None] * len(plist)
         self.steps = steps
         self.k = 0
         self.obs = []
@@ -181,19 +251,24 @@ class Driver(object):
         self.kills = []
         self.pending_ntf = False
         self.ntf_mid = []
+        self.eff = [[] for _ in steps]      # what reached the engine, per step (for the property predicate)
+        self.alive = None
 
-        prod = _Obj()
-        prod.stageIndex = 0 if cfg['same_stage'] else -1
-        prod.isRepeat = cfg['prod_rep']
-        prod.identification = 'stage0.prod'
-        class WD(object):
-            # non-empty iff the producer has written output
-            output = property(lambda s: (['out.dat'] if drv.lo is not None else []))
-        wd = WD()
-        wd.path = '/nonexistent/verif_c13/prod'
-        wd.outputSinceDate = lambda date: (['out.dat'] if (drv.lo is not None and
-                                                          EPOCH + _dt.timedelta(milliseconds=drv.lo) > date) else [])
-        prod.workingDirectory = wd
+        def mkprod(i, pc):
+            prod = _Obj()
+            prod.stageIndex = 0 if pc['same_stage'] else -1
+            prod.isRepeat = pc['prod_rep']
+            prod.identification = 'stage0.prod%d' % i
+
+            class WD(object):
+                # non-empty iff the producer has written output
+                output = property(lambda s: (['out.dat'] if drv.los[i] is not None else []))
+            wd = WD()
+            wd.path = '/nonexistent/verif_c13/prod%d' % i
+            wd.outputSinceDate = lambda date: (['out.dat'] if (drv.los[i] is not None and
+                                                              EPOCH + _dt.timedelta(milliseconds=drv.los[i]) > date) else [])
+            prod.workingDirectory = wd
+            return prod
 
         j = _Obj()
         j.reference = 'stage0.obs'
@@ -212,19 +287,7 @@ class Driver(object):
         j.workflowAttributes = {'repeatRetries': cfg['retries'], 'optimizer': {'disable': True}, 'isRepeat': True,
                                 'restartHookOn': [], 'shutdownOn': [], 'restartHookFile': None}
         j.repeatInterval = lambda: cfg['interval'] / 1000.0
-        j.producerInstances = [prod] if cfg['has_prod'] else []
-        if cfg['has_prod'] and cfg.get('extra_prod'):
-            # a second producer of the same kind whose (old) output has been there since before the observer started
-            # and never changes: "every producer has output" and "some producer has new output" are then decided by
-            # the first producer alone, exactly as in the one-producer model, whatever the order of the list
-            prod_b = _Obj()
-            prod_b.stageIndex = prod.stageIndex
-            prod_b.isRepeat = prod.isRepeat
-            prod_b.identification = 'stage0.prodB'
-            wd_b = types.SimpleNamespace(output=['old.dat'], path='/nonexistent/verif_c13/prodB',
-                                         outputSinceDate=lambda date: [])
-            prod_b.workingDirectory = wd_b
-            j.producerInstances = [prod_b, prod] if cfg['extra_prod'] == 'first' else [prod, prod_b]
+        j.producerInstances = [mkprod(i, pc) for i, pc in enumerate(plist)]
         var = {}
         if cfg['has_delay']:
             var['kill-after-producers-done-delay'] = '30'
@@ -237,15 +300,17 @@ class Driver(object):
         def gen(job, outputFile=None, errorFile=None):
             o = drv.steps[drv.k]['o']
             if o['fail']:
-                drv.execs.append((drv.now_ms, bool(drv.eng._producers_are_finished), None, drv.lo, drv.k))
+                drv.execs.append((drv.now_ms, bool(drv.eng._producers_are_finished), None, list(drv.los), drv.k))
                 raise RuntimeError('verif: launch fails')
             t = FakeTask(drv, o)
-            drv.execs.append((drv.now_ms, bool(drv.eng._producers_are_finished), o['rc'], drv.lo, drv.k))
+            drv.execs.append((drv.now_ms, bool(drv.eng._producers_are_finished), o['rc'], list(drv.los), drv.k))
             return t
 
         eng = E.RepeatingEngine(j, taskGenerator=gen)
         eng.emit_now = lambda *a, **k: None
         self.eng = eng
+        if cfg.get('alive0') is not None:
+            self._stage_in(cfg, plist)
 
         real_cm = self.M.CreateMonitor
 
@@ -274,4 +339,4 @@ class Driver(object):
         finally:
             self.M.CreateMonitor = real_cm
         return {'obs': self.obs, 'finished': finished, 'execs': list(self.execs), 'errors': list(self.errors),
-                'nsteps': len(self.obs), 'fired': list(self.fired), 'kills': list(self.kills), 'lo': self.lo}
+                'nsteps': len(self.obs), 'fired': list(self.fired), 'kills': list(self.kills), 'los': list(self.los), 'eff': [list(e) for e in self.eff]}
